@@ -250,6 +250,9 @@ func operatorCase(c *run.Ctx) run.Result {
 	if c.Case%5 == 4 {
 		return varyingLineCase(c)
 	}
+	if c.Case%5 == 3 {
+		return sharedListCase(c)
+	}
 	L := genScale(r)
 	res.SetAdd("size_decades", decade(L))
 	centre := genPos(r, L)
@@ -590,4 +593,165 @@ func varyingLineCase(c *run.Ctx) run.Result {
 	res.Sig = fmt.Sprintf("varying-line/%d", n)
 	res.SetAdd("operators", "VarryingThicknessLine")
 	return res
+}
+
+// sharedListCase: composites built from ONE operand list that is passed spread
+// (ops...) to several constructors. A constructor may keep the slice it was handed
+// (the n-ary Union reads it lazily) but must not write to it: after ALL composites
+// are built, every one of them is checked against the reference solids and
+// against the original operands, and the list itself must still hold functions
+// that evaluate like the original operands. The harness never writes to the list.
+func sharedListCase(c *run.Ctx) run.Result {
+	var res run.Result
+	r := c.Rng
+	L := genScale(r)
+	res.SetAdd("size_decades", decade(L))
+	centre := genPos(r, L)
+	k := []int{1, 2, 2, 3, 3, 3, 4, 4, 5, 6}[r.Intn(10)]
+	var leaves []shape
+	for i := 0; i < k; i++ {
+		s := genShape(r, primKinds[r.Intn(len(primKinds))], L)
+		leaves = append(leaves, relocate(s, centre.add(randDir(r).mul(L*r.Float64()))))
+	}
+	orig := make([]sample.Vec3ToFloat, k) // the harness's own handles on the operands
+	ops := make([]sample.Vec3ToFloat, k)  // the caller's list, only ever passed as ops...
+	for i, s := range leaves {
+		orig[i], _ = polyform(s)
+		ops[i] = orig[i]
+	}
+	type composite struct {
+		name string
+		op   string // Union | Intersect | Subtract(Union,Intersect) …
+		f    sample.Vec3ToFloat
+	}
+	var comps []composite
+	base := 0.0
+	for _, s := range leaves {
+		base = math.Max(base, math.Max(s.radius(), s.mag()))
+	}
+	if p := run.Try(func() {
+		// construction order is part of the case: Union before and after the Intersects
+		plan := []string{"Union", "Intersect", "Intersect", "Union", "Subtract(U,I)", "Subtract(I,U)", "Intersect"}
+		r.Shuffle(len(plan), func(i, j int) { plan[i], plan[j] = plan[j], plan[i] })
+		plan = plan[:3+r.Intn(len(plan)-2)]
+		if r.Intn(2) == 0 { // the order the request names: Union first, then two Intersects
+			plan = append([]string{"Union", "Intersect", "Intersect"}, plan...)
+		}
+		for i, what := range plan {
+			name := fmt.Sprintf("#%d %s(ops...)", i, what)
+			switch what {
+			case "Union":
+				comps = append(comps, composite{name, "Union", sdf.Union(ops...)})
+			case "Intersect":
+				comps = append(comps, composite{name, "Intersect", sdf.Intersect(ops...)})
+			case "Subtract(U,I)":
+				comps = append(comps, composite{name, "U-I", sdf.Subtract(sdf.Union(ops...), sdf.Intersect(ops...))})
+			case "Subtract(I,U)":
+				comps = append(comps, composite{name, "I-U", sdf.Subtract(sdf.Intersect(ops...), sdf.Union(ops...))})
+			}
+			res.SetAdd("shared_list_constructions", what)
+		}
+		var names []string
+		for _, cp := range comps {
+			names = append(names, cp.name)
+		}
+		res.Sig = fmt.Sprintf("shared-list/%d/%d composites", k, len(comps))
+		res.SetAdd("shared_list_arities", fmt.Sprint(k))
+		nIn, nOut := 0, 0
+		for i := 0; i < 300; i++ {
+			p, _ := samplePoint(r, leaves[r.Intn(k)])
+			if i == 0 && r.Intn(2) == 0 {
+				p = v3{}
+			}
+			tol := 1e-9 * math.Max(base, p.maxAbs())
+			pp := pv(p)
+			// the operands as the harness knows them
+			vals := make([]float64, k)
+			anyIn, allIn, decided := false, true, true
+			refAny, refAll := false, true
+			for j := range orig {
+				vals[j] = orig[j](pp)
+				anyIn = anyIn || vals[j] < 0
+				allIn = allIn && vals[j] < 0
+				m := leaves[j].margin(p)
+				decided = decided && math.Abs(m) > tol
+				refAny = refAny || m < 0
+				refAll = refAll && m < 0
+			}
+			// the list the constructors were handed must be untouched
+			for j := range ops {
+				res.Count("shared_list_entry_checks", 1)
+				if got := ops[j](pp); got != vals[j] && !(math.IsNaN(got) && math.IsNaN(vals[j])) {
+					res.Violate("caller-slice-modified", "sdf.Union/Intersect (operand list passed as ops...)", fmt.Sprintf("%d operands", k),
+						fmt.Sprintf("after building %v from one list, entry %d of the caller's list evaluates to %.17g at %v; the operand put there evaluates to %.17g", names, j, got, p, vals[j]),
+						pointWitness{Shape: "shared operand list", Params: map[string]any{"operands": describeAll(leaves), "constructed": names}, P: p, Got: got, Want: vals[j]})
+					return
+				}
+			}
+			for _, cp := range comps {
+				v := cp.f(pp)
+				var want, ref bool
+				skip := false
+				switch cp.op {
+				case "Union":
+					want, ref = anyIn, refAny
+				case "Intersect":
+					want, ref = allIn, refAll
+				case "U-I":
+					// inside the union and not inside the intersection (undecided where the intersection is exactly 0)
+					ivals := math.Inf(-1)
+					for _, x := range vals {
+						ivals = math.Max(ivals, x)
+					}
+					skip = ivals == 0
+					want, ref = anyIn && !allIn, refAny && !refAll
+				case "I-U":
+					uvals := math.Inf(1)
+					for _, x := range vals {
+						uvals = math.Min(uvals, x)
+					}
+					skip = uvals == 0
+					want, ref = false, false // inside all and outside the union is empty
+				}
+				if skip {
+					continue
+				}
+				res.Count("shared_list_composite_checks", 1)
+				if math.IsNaN(v) || (v < 0) != want {
+					res.Violate("set-operation-sign", "sdf."+map[string]string{"Union": "Union", "Intersect": "Intersect", "U-I": "Subtract", "I-U": "Subtract"}[cp.op]+" (shared operand list)", fmt.Sprintf("%s/%d", cp.op, k),
+						fmt.Sprintf("%s (built among %v from one list) = %.17g at %v; operands evaluate to %v, so negative should be %v", cp.name, names, v, p, vals, want),
+						pointWitness{Shape: cp.name, Params: map[string]any{"operands": describeAll(leaves), "constructed": names}, P: p, Got: v, Want: map[string]any{"negative": want, "operands": vals}})
+					return
+				}
+				if decided {
+					if ref {
+						nIn++
+					} else {
+						nOut++
+					}
+					if (v < 0) != ref {
+						res.Violate("composite-sign", "sdf operators (composite vs reference solids)", fmt.Sprintf("%s/%d", cp.op, k),
+							fmt.Sprintf("%s = %.17g at %v, reference membership %v", cp.name, v, p, ref),
+							pointWitness{Shape: cp.name, Params: map[string]any{"operands": describeAll(leaves), "constructed": names}, P: p, Got: v, Want: map[string]any{"inside": ref}})
+						return
+					}
+				}
+			}
+		}
+		res.Count("composite_points_inside", int64(nIn))
+		res.Count("composite_points_outside", int64(nOut))
+		res.Nontrivial = nIn > 0 && nOut > 0 && len(comps) >= 3
+	}); p != nil {
+		res.Violate("runtime-panic", "sdf operators (shared operand list)", "", fmt.Sprintf("panic: %v at %s", p.Value, p.Site), nil)
+	}
+	res.Count("shared_list_cases", 1)
+	return res
+}
+
+func describeAll(leaves []shape) []any {
+	var out []any
+	for _, s := range leaves {
+		out = append(out, map[string]any{s.kind(): s.params()})
+	}
+	return out
 }
